@@ -53,7 +53,7 @@ def register(db):
             ("with-the-element-own-in-scope-namespaces", "call_arg('PyList.append', 0)[3] is ns_map"),
             ("with-a-copy-of-the-element-attributes", "call_arg('PyList.append', 0)[2] == uf('copy.deepcopy', 'u:PyDict', attrs)"),
         ],
-        raises={}, properties=["C09", "C15"],
+        raises={}, modifies=["self.level"], properties=["C09", "C15"],
     ))
 
 
